@@ -48,7 +48,7 @@ class HistTrav(Hist):
         s = self.pick(rng, lambda s: s.net.gates and s.net.is_acyclic())
         if s is None:
             return
-        net, real = s.net, s.real
+        net, real = self.reread(s), s.real
         labels = list(net.gates)
         ntasks = weighted_choice(rng, [(1, 2), (2, 4), (3, 3), (4, 2)])
         self.seq = 0
